@@ -17,7 +17,16 @@ IGNORE = set()
 
 
 def obs_equal(a, b):
-    return {k: v for k, v in a.items() if k not in IGNORE} == {k: v for k, v in b.items() if k not in IGNORE}
+    """Equality of two observations of one member.  The encoded snapshot is compared byte for
+    byte, except that the out-of-order key history of a ratchet is a hash map, encoded in
+    iteration order: when only the snapshot bytes differ, the order-insensitive digest (length and
+    multiset of bytes) decides."""
+    da = {k: v for k, v in a.items() if k not in IGNORE}
+    db = {k: v for k, v in b.items() if k not in IGNORE}
+    if da == db:
+        return True
+    keys = {k for k in set(da) | set(db) if da.get(k) != db.get(k)}
+    return keys <= {"snap", "stored_state"} and da.get("snap_bag") == db.get("snap_bag")
 
 
 def main(run, args):
@@ -85,6 +94,41 @@ def main(run, args):
             mk.append(("crash", m, a, len(g.ops) - 1))
         scripts.append(g.script())
         marks.append(mk)
+    # directed: messages in flight at the time of the write (the receiver holds keys of skipped
+    # generations in its out-of-order history), in the current and in a prior epoch
+    for i in range(6 if quick else 40):
+        storage = ["mem", "sqlite"][i % 2]
+        members = [{"name": n, "storage": storage, "retention": 3} for n in "ABC"]
+        ops = [{"op": "create", "who": "A"}, {"op": "kp", "who": "B", "id": "kB"}, {"op": "kp", "who": "C", "id": "kC"},
+               {"op": "commit", "who": "A", "id": "c1", "add": ["kB", "kC"]}, {"op": "apply", "who": "A"},
+               {"op": "join", "who": "B", "welcome_any": "c1"}, {"op": "join", "who": "C", "welcome_any": "c1"}]
+        enc_ctl = rng.chance(1, 2)
+        ops.append({"op": "opts", "who": "A", "encrypt_controls": enc_ctl})
+        n = 4 + rng.below(5)
+        ids = []
+        for k in range(n):
+            ops.append({"op": "app", "who": "A", "id": f"m{k}", "data": "%02x" % k})
+            ids.append(f"m{k}")
+        late = sorted(rng.shuffle(list(range(n - 1)))[:1 + rng.below(2)])          # delayed messages
+        first = [k for k in range(n) if k not in late]
+        for k in rng.shuffle(first):
+            ops.append({"op": "deliver", "to": "B", "msg": f"m{k}"})
+        mk = []
+        prior = rng.chance(1, 2)
+        if prior:
+            ops += [{"op": "commit", "who": "C", "id": "c2"}, {"op": "deliver", "to": "A", "msg": "c2"}, {"op": "deliver", "to": "B", "msg": "c2"}, {"op": "apply", "who": "C"}]
+        ops.append({"op": "save", "who": "B"})
+        ops.append({"op": "observe", "who": "B", "observe": "B"})
+        a = len(ops) - 1
+        ops.append({"op": "load", "who": "B"})
+        ops.append({"op": "observe", "who": "B", "observe": "B"})
+        mk.append(("reload_in_flight_prior" if prior else "reload_in_flight", "B", a, len(ops) - 1))
+        for k in late:
+            ops.append({"op": "deliver", "to": "B", "msg": f"m{k}"})
+        ops += [{"op": "commit", "who": "B", "id": "c3"}, {"op": "deliver", "to": "A", "msg": "c3"}, {"op": "deliver", "to": "C", "msg": "c3"}, {"op": "apply", "who": "B"},
+                {"op": "observe", "who": "B", "observe": "all"}]
+        scripts.append({"name": f"c06-flight-{i}", "suite": 1, "members": members, "ops": ops})
+        marks.append(mk)
     recs = run_scripts(scripts, timeout=1500)
     failing = []
     n_checks = 0
@@ -106,7 +150,7 @@ def main(run, args):
             if not obs_equal(oa, ob):
                 diff = {k: (oa.get(k), ob.get(k)) for k in oa if oa.get(k) != ob.get(k)}
                 failing.append({"what": f"{kind}: the loaded group differs from the saved one", "script": sc["name"], "member": m, "differences": diff, "ops": sc["ops"][a - 3:b + 1]})
-            if oa.get("stored_state") != oa.get("snap"):
+            if oa.get("stored_state") != oa.get("snap") and oa.get("stored_bag") != oa.get("snap_bag"):
                 failing.append({"what": "the stored state is not the member's snapshot at the time of the write", "script": sc["name"], "member": m})
         # lockstep: members of the same epoch agree (includes the reloaded ones)
         for r in rs:
